@@ -1,4 +1,106 @@
-/- Driver.C11 — stream `C11` (stub: replaced when the property's model is built). -/
+/-
+  Driver.C11 — streams `C11` and `C12` (Driver.C12 re-uses `runWith`): payload `( group* )`
+    group := ( (tok*) cfg* )
+    tok   := (s name ((n v)*)) | (se name ((n v)*)) | (e name) | (d str) | (er str) | (cr str) | (c str)
+           | (dl str) | (ud str) | (pi str)                     v := "str | none
+    cfg   := (plain) | (pretty ind ssc) | (mini ind ssc) | (slim ind ssc) | (slimmini ind ssc)
+    ind   := dflt | "str | (int n)                              ssc := true | false
+  Output: `( ( result* )* )`, one result per cfg:
+    (ok "html)                                  — C11
+    (ok "html (level inPre open) ((name "indent)*))  — C12 (`full`): final counters of the formatter object and
+                                                      every element of its tree in document order with its `_indent`
+    (raise multipleRoot|noRoot)
+-/
+import AHP.Model.Format
 namespace Driver.C11
-def run (_payload : String) : String := "unimplemented"
+open AHP AHP.Sexp AHP.Fmt
+
+def toAttr : Sexp → Option (Str × Option Str)
+  | .list [n, v] => do
+    let n ← toStr? n
+    let v ← toOptStr? v
+    pure (n, v)
+  | _ => none
+
+def toTok : Sexp → Option Tok
+  | .list [.atom "s", n, .list a] => do pure (.start (← toStr? n) (← a.mapM toAttr))
+  | .list [.atom "se", n, .list a] => do pure (.startend (← toStr? n) (← a.mapM toAttr))
+  | .list [.atom "e", n] => do pure (.end_ (← toStr? n))
+  | .list [.atom "d", s] => do pure (.data (← toStr? s))
+  | .list [.atom "er", s] => do pure (.entity (← toStr? s))
+  | .list [.atom "cr", s] => do pure (.charref (← toStr? s))
+  | .list [.atom "c", s] => do pure (.comment (← toStr? s))
+  | .list [.atom "dl", s] => do pure (.decl (← toStr? s))
+  | .list [.atom "ud", s] => do pure (.unknownDecl (← toStr? s))
+  | .list [.atom "pi", s] => do pure (.pi (← toStr? s))
+  | _ => none
+
+def toIndent : Sexp → Option IndentArg
+  | .atom "dflt" => some .dflt
+  | .list [.atom "int", .atom n] => n.toInt?.map .int
+  | x => (toStr? x).map .str
+
+def toBool : Sexp → Option Bool
+  | .atom "true" => some true
+  | .atom "false" => some false
+  | _ => none
+
+def toClass : String → Option Class
+  | "pretty" => some .pretty
+  | "mini" => some .mini
+  | "slim" => some .slim
+  | "slimmini" => some .slimMini
+  | _ => none
+
+def errName : Err → String
+  | .multipleRoot => "multipleRoot"
+  | .noRoot => "noRoot"
+
+mutual
+partial def elems : Node → List Sexp
+  | .text _ _ => []
+  | .elem _ n _ _ ind kids => Sexp.list [strAtom n, strAtom ind] :: elemsL kids
+partial def elemsL : List Node → List Sexp
+  | [] => []
+  | x :: xs => elems x ++ elemsL xs
+end
+
+def intAtom (i : Int) : Sexp := .atom (toString i)
+
+def result (full : Bool) (toks : List Tok) : Sexp → Sexp
+  | .list [.atom "plain"] =>
+    match Plain.html toks with
+    | .ok h => .list [sym "ok", strAtom h]
+    | .error e => .list [sym "raise", sym (errName e)]
+  | .list [.atom c, ind, ssc] =>
+    match toClass c, toIndent ind, toBool ssc with
+    | some c, some ind, some ssc =>
+      let cfg := mkCfg c ind ssc
+      match feed cfg toks with
+      | .error e => .list [sym "raise", sym (errName e)]
+      | .ok s =>
+        match docHTML s.doctype s.root with
+        | .error e => .list [sym "raise", sym (errName e)]
+        | .ok h =>
+          if full then
+            .list [sym "ok", strAtom h, .list [intAtom s.level, intAtom s.inPre, natAtom s.stack.length],
+                   .list (match s.root with | some r => elems r | none => [])]
+          else .list [sym "ok", strAtom h]
+    | _, _, _ => sym "bad-cfg"
+  | _ => sym "bad-cfg"
+
+def group (full : Bool) : Sexp → Sexp
+  | .list (.list toks :: cfgs) =>
+    match toks.mapM toTok with
+    | some ts => .list (cfgs.map (result full ts))
+    | none => sym "bad-tokens"
+  | _ => sym "bad-group"
+
+def runWith (full : Bool) (payload : String) : String :=
+  match Sexp.parse payload with
+  | some (.list groups) => (Sexp.list (groups.map (group full))).render
+  | _ => "bad-case"
+
+def run (payload : String) : String := runWith false payload
+
 end Driver.C11
